@@ -106,7 +106,8 @@ def run(ctx):
         # ---- collapsed fraction of the fits that claim all mass is in haloes
         nfrac = 0
         unit = [("PS", {}, 0.0, 200.0), ("SMT", {"A": None}, 0.0, 200.0), ("Manera", {}, 0.0, 200.0), ("Peacock", {}, 0.0, 200.0),
-                ("Tinker10", {}, 1.0, 250.0), ("Tinker10", {}, 0.0, 250.0), ("Bhattacharya", None, 0.0, 200.0)]
+                ("Tinker10", {}, 1.0, 250.0), ("Tinker10", {}, 0.0, 250.0), ("Tinker10", {}, 1.0, 200.0), ("Tinker10", {}, 3.0, 800.0),
+                ("Courtin", {"A": None}, 0.0, 200.0), ("SMT", {"A": None, "p": 0.15}, 0.0, 200.0), ("Bhattacharya", None, 0.0, 200.0)]
         for name, params, z, delta in unit:
             if params is None:
                 continue
